@@ -25,7 +25,8 @@ Definition ids_wf (s : st) (g : ghost) : Prop :=
 Record Acct (s s' : st) (g g' : ghost) : Prop := {
   ac_errs : exists de ls, s_errs s' = s_errs s ++ de /\ Forall2 lands de ls /\
                           sub_perm (ls ++ g_sites g') (g_sites g);
-  ac_proms : exists new, s_proms s' = s_proms s ++ new /\ Forall (fun pr => p_done pr = false) new;
+  ac_proms : exists new, s_proms s' = s_proms s ++ new /\ Forall (fun pr => p_done pr = false) new /\
+             forall k pr, nth_error new k = Some pr -> p_id pr = np s + k;
   ac_ids : forall id, In id (g_ids g') -> In id (g_ids g) \/ (np s <= id < np s');
   ac_nodup : ids_wf s g -> NoDup (g_ids g');
   ac_chans : forall x, In x (s_chans s') -> In x (s_chans s);
@@ -66,7 +67,7 @@ Lemma Acct_same s s' g : same_acct s s' -> Acct s s' g g.
 Proof.
   intros (E1 & E2 & E3 & E4). constructor.
   - exists [], []. rewrite E1, app_nil_r. repeat split; [constructor | apply sub_perm_refl].
-  - exists []. rewrite E2, app_nil_r. split; auto.
+  - exists []. rewrite E2, app_nil_r. split; auto. split; auto. intros [|k] pr X; discriminate.
   - intros id H. now left.
   - intros [H _]. exact H.
   - rewrite E3. auto.
@@ -92,8 +93,11 @@ Proof.
     + now apply Forall2_app.
     + eapply sub_perm_trans; [|exact S1].
       rewrite <- app_assoc. apply sub_perm_app; [apply sub_perm_refl | exact S2].
-  - destruct (ac_proms _ _ _ _ A) as (n1 & E1 & F1). destruct (ac_proms _ _ _ _ B) as (n2 & E2 & F2).
-    exists (n1 ++ n2). rewrite E2, E1, app_assoc. split; auto. now apply Forall_app.
+  - destruct (ac_proms _ _ _ _ A) as (n1 & E1 & F1 & K1). destruct (ac_proms _ _ _ _ B) as (n2 & E2 & F2 & K2).
+    exists (n1 ++ n2). rewrite E2, E1, app_assoc. split; auto. split; [now apply Forall_app|].
+    intros k pr X. destruct (lt_dec k (length n1)) as [Hlt|Hge].
+    + rewrite nth_error_app1 in X by auto. now apply K1.
+    + rewrite nth_error_app2 in X by lia. rewrite (K2 _ _ X). unfold np. rewrite E1, app_length. lia.
   - intros id H. destruct (ac_ids _ _ _ _ B id H) as [H1|H1]; [|right; lia].
     destruct (ac_ids _ _ _ _ A id H1) as [H2|H2]; [now left | right; lia].
   - intros W. eapply ac_nodup; [exact B|]. eapply Acct_ids_wf; eauto.
@@ -217,7 +221,7 @@ Lemma Acct_fire s e x g : lands e x -> Acct s (add_err e s) (gsite x g) g.
 Proof.
   intros L. constructor; simpl.
   - exists [e], [x]. repeat split; [repeat constructor; auto | apply sub_perm_refl].
-  - exists []. rewrite app_nil_r. split; auto.
+  - exists []. rewrite app_nil_r. split; auto. split; auto. intros [|k] pr X; discriminate.
   - intros id H. now left.
   - intros [H _]. exact H.
   - auto.
@@ -231,7 +235,7 @@ Lemma Acct_unsite s x g : Acct s s (gsite x g) g.
 Proof.
   constructor; simpl.
   - exists [], []. rewrite app_nil_r. repeat split; [constructor|]. apply sub_perm_cons_r, sub_perm_refl.
-  - exists []. rewrite app_nil_r. split; auto.
+  - exists []. rewrite app_nil_r. split; auto. split; auto. intros [|k] pr X; discriminate.
   - intros id H. now left.
   - intros [H _]. exact H.
   - auto.
